@@ -9,25 +9,25 @@ import (
 
 // wireOpts tunes the shared generator of protocol-level runs over the simulated wire.
 type wireOpts struct {
-	variants    []Variant
-	bigTTL      float64 // probability of a wide / high TTL range
-	catalogue   bool    // draw router/destination reply forms from the whole catalogue
-	silentProb  float64
-	dupProb     float64 // duplicate genuine replies
-	lossProb    float64 // probe or reply loss
-	lateProb    float64 // replies delayed beyond the listening window
-	wellTimed   bool    // serial engine: every reply inside its own probe's window, one reply per probe
-	adversarial int     // max perturbed look-alikes per probed TTL
-	destForms   bool    // destination-form replies from non-target hosts, errors from the target itself
-	garbage     int     // max garbage packets per probed TTL
-	noise       int     // max unrelated packets per run
-	flood       bool
-	captureOut  float64
-	wrapBases   bool
-	senderStall float64
-	prodTimeouts bool   // production-scale timeouts (3 s) and delays
-	overtake    bool    // non-monotone delays so replies overtake each other
-	noDest      float64 // probability that the destination is never reached
+	variants     []Variant
+	bigTTL       float64 // probability of a wide / high TTL range
+	catalogue    bool    // draw router/destination reply forms from the whole catalogue
+	silentProb   float64
+	dupProb      float64 // duplicate genuine replies
+	lossProb     float64 // probe or reply loss
+	lateProb     float64 // replies delayed beyond the listening window
+	wellTimed    bool    // serial engine: every reply inside its own probe's window, one reply per probe
+	adversarial  int     // max perturbed look-alikes per probed TTL
+	destForms    bool    // destination-form replies from non-target hosts, errors from the target itself
+	garbage      int     // max garbage packets per probed TTL
+	noise        int     // max unrelated packets per run
+	flood        bool
+	captureOut   float64
+	wrapBases    bool
+	senderStall  float64
+	prodTimeouts bool    // production-scale timeouts (3 s) and delays
+	overtake     bool    // non-monotone delays so replies overtake each other
+	noDest       float64 // probability that the destination is never reached
 	natInRelaxed bool
 }
 
